@@ -15,4 +15,20 @@ CHECKS = {
           "States are sampled (boundary-biased), not exhaustive. RTI outside the claim.",
   "technique": "TLA+ spec of the ISA + TLC trace validation of recorded single-step executions (all 65,536 words)",
  },
+ "C01": {
+  "text": "Assembler.tla gives the declarative image (ISA bit layouts, PC-relative equation, directive expansion) of an abstract syntax tree. TLC (A) checks that the "
+          "two-pass pipeline model (early fill / backpatch / emit with the code's modular arithmetic) refines it for all programs over a universe of item shapes "
+          "(MC_Assembler: Refines, NoSpill) and (C) validates with Trace_Asm.tla the real pipeline's output for every instruction form x every register x every in-range field value, "
+          "label placements at every field boundary, and random multi-label programs, each rendered in several seeded layouts/spellings.",
+  "note": "Trusted: TLC, the TLA+ transcription of the encodings, the renderer (its output is the test input; a renderer bug shows as a false VIOLATION, never as a miss). "
+          "Field values exhaustive; layouts, label programs and multi-statement programs sampled.",
+  "technique": "TLA+ spec of assembly (declarative image + pipeline refinement in TLC) + trace validation of the real assembler's output",
+ },
+ "C04": {
+  "text": "Assembler!Accepts is the acceptance predicate (field ranges, label rules, single .orig). TLC checks on MC_Assembler that the pipeline's verdict equals Accepts for all bounded programs "
+          "under both flag values and that no accepted word spills (NoSpill); Trace_Asm.tla validates the real verdict and image for the boundary matrix (min-1..max+1, 16-bit extremes, alias spellings, "
+          "label distances +-2^(n-1) and beyond, label/.orig errors).",
+  "note": "Trusted: TLC, the transcription of the ranges from the property statement. J1 (alias literals) is free. Token-level malformed statements are covered by C05 (totality) only.",
+  "technique": "TLA+ acceptance predicate + pipeline refinement in TLC + trace validation of real verdicts on a boundary matrix",
+ },
 }
